@@ -55,6 +55,20 @@ def run_sym(
             elif expect_exception is not None and expect_exception(res):
                 cl = []
             else:
+                # The code under test raised on symbolic input.  If the native replay (generic concrete inputs) shows a
+                # violation, it is one; otherwise the engine hit something it does not model (harness error).
+                rep = None
+                if replay is not None:
+                    try:
+                        rep = replay(None, f"raised {type(res).__name__}")
+                    except Exception:
+                        rep = None
+                if rep is not None:
+                    key, what, payload = rep
+                    tag = what.split(":", 1)[0].strip() if ":" in what else what[:40]
+                    check.obligation(group, "refuted")
+                    check.violation(f"{key}::{tag}", what, payload)
+                    continue
                 import traceback
 
                 tb = "".join(traceback.format_exception(res)[-6:])
